@@ -273,6 +273,43 @@ def explore(chk):
                                      "sami -> sami: the characters a class marks italic / bold / underline changed")
         except Exception as e:
             chk.property_failure(dict(case, error=repr(e)[:300]), "SAMI write / read raised on a span styled by a class")
+    # ---- a span that names a class of the caption set AND is italic by itself, through the DFXP writer and reader: whatever the
+    #      class says, the characters stay italic
+    csub = chk.sub("class_and_inline_italics")
+    for k_ in range(24 if chk.tier == "quick" else 600):
+        cname = csub.choice(["emph", "loud", "aside"])
+        cdef = csub.choice([{"color": "yellow"}, {"font-family": "Arial"}, {"text-align": "right"}, {"italics": True}, {"color": "white", "font-size": "12px"}])
+        content = {"class": cname, "italics": True}
+        if csub.random() < 0.4:
+            content["color"] = "red"
+        words = [csub.choice(WORDS) for _ in range(3)]
+        nodes = [CaptionNode.create_text(words[0] + " "), CaptionNode.create_style(True, dict(content)), CaptionNode.create_text(words[1]),
+                 CaptionNode.create_style(False, dict(content)), CaptionNode.create_text(" " + words[2])]
+        cs = CaptionSet({"en-US": CaptionList([Caption(1000000, 2500000, nodes)])}, styles={cname: dict(cdef)})
+        case = {"span": content, "class_definition": {cname: cdef}, "words": words}
+        chk.case(key=("class+italics", json.dumps(case, sort_keys=True)), nontrivial=True); chk.count("class_and_inline_italic_spans")
+        for wname, W in (("dfxp", pycaption.DFXPWriter), ("single", __import__("pycaption.dfxp.extras", fromlist=["x"]).SinglePositioningDFXPWriter)):
+            try:
+                doc = core.POOL.get(W).write(cs)
+                rs = core.POOL.get(pycaption.DFXPReader).read(doc)
+            except Exception as e:
+                chk.property_failure(dict(case, writer=wname, error=repr(e)[:300]), "DFXP write / read raised on a span with a class and inline italics"); continue
+            rcap = rs.get_captions(rs.get_languages()[0])[0]
+            it = ""; depth = []
+            for n in rcap.nodes:
+                if n.type_ == CaptionNode.TEXT:
+                    if any(depth):
+                        it += "".join(ch for ch in n.content if not ch.isspace())
+                elif n.type_ == CaptionNode.STYLE:
+                    if n.start:
+                        c_ = n.content or {}
+                        cls = list(c_.get("classes") or ([c_["class"]] if c_.get("class") else []))
+                        depth.append(bool(c_.get("italics")) or any((rs.get_style(x) or {}).get("italics") for x in cls))
+                    elif depth:
+                        depth.pop()
+            if it != "".join(ch for ch in words[1] if not ch.isspace()):
+                chk.property_failure(dict(case, writer=wname, italic_after=it, read_nodes=str(capio.obs_nodes(rcap.nodes))[:500], document=doc[:1500]),
+                                     "%s -> dfxp reader: the italic characters of a span that also names a class changed" % wname)
     # ---- spans that carry attributes of their own next to the style (alignment, colour, font): italic / bold / underline
     #      must survive whatever else the span says
     from pycaption.geometry import Layout, Point, Size, UnitEnum
